@@ -377,7 +377,7 @@ class Gen:
             ws.insert(r.randint(1, len(ws)), self.a_ldate())
         return ws
 
-    def a_page(self, n_lines=(8, 40), meta_p=0.3):
+    def a_page(self, n_lines=(8, 40), meta_p=0.3, want_zid=None):
         r = self.r
         title = self.header_words(0.6, 0.5)
         head = [self.header_words(0.6, 0.3) for _ in range(r.choice([0, 0, 1, 2]))]
@@ -399,5 +399,5 @@ class Gen:
             elif x < 0.38 and body and body[-1]["k"] in ("item", "cmt"):
                 body.append(BLANK)
             else:
-                body.append(self.an_item(meta_p=meta_p))
+                body.append(self.an_item(meta_p=meta_p, want_zid=want_zid))
         return {"title": title, "head": head, "body": body}
